@@ -46,7 +46,7 @@ func idFor(c *vk.Ctx, i int) []byte {
 
 func main() {
 	c := vk.Init("C14")
-	c.Rule("TestReqID values: every single byte value except SOH (255), 40 decoys ('112=', '10=000', '35=A', '=', spaces, digits, NUL, high bytes, text resembling other fields), lengths up to 10000, random strings; each injected at every kind of position of a logged-on history (directly after logon, several in a row, between Heartbeats / application messages / rejected messages / local sends), both roles; plus real-time sessions (N=1) in which the session's own TestRequest is pending when the peer's TestRequests arrive; plus sessions on the full stack (scripted net.Conn, connection reader/writer) given identifiers of 1..70000 bytes incl. every length 4088..4104 and 8184..8200. Oracle per TestRequest step: exactly one message emitted in that step (so before any later reply), MsgType 0, its 112 value (reference tokenizer) byte-equal to the ID. distinct = distinct (ID bytes, role, context); non-trivial = all")
+	c.Rule("TestReqID values: every single byte value except SOH (255), 40 decoys ('112=', '10=000', '35=A', '=', spaces, digits, NUL, high bytes, text resembling other fields), lengths up to 10000, random strings; each injected at every kind of position of a logged-on history (directly after logon, several in a row, between Heartbeats / application messages / rejected messages / local sends), both roles; plus real-time sessions (N=1) in which the session's own TestRequest is pending when the peer's TestRequests arrive; plus sessions on the full stack (scripted net.Conn, connection reader/writer) given identifiers of 1..70000 bytes incl. every length 4088..4104 and 8184..8200, and bursts of 40 TestRequests against a slowly reading peer (handler buffers 0/1/4/10; answers must come in request order). Oracle per TestRequest step: exactly one message emitted in that step (so before any later reply), MsgType 0, its 112 value (reference tokenizer) byte-equal to the ID. distinct = distinct (ID bytes, role, context); non-trivial = all")
 	n := c.Pick(700, 12000)
 	vk.Parallel(n, runtime.NumCPU(), func(i int) {
 		r := c.Rand("c14", int64(i))
@@ -258,6 +258,72 @@ func fullStack(c *vk.Ctx) {
 					}
 				}
 			}(ri, role, part)
+		}
+	}
+	// a burst of TestRequests while the peer reads slowly (the outgoing queue is full most of the time): every
+	// answer still comes before the answer to any later request
+	for ri, role := range []rig.Role{rig.Acceptor, rig.Initiator} {
+		for bi, buf := range []int{0, 1, 4, 10} {
+			wg.Add(1)
+			go func(ri int, role rig.Role, bi, buf int) {
+				defer wg.Done()
+				f, err := rig.StartFull(rig.FullCfg{Role: role, HeartBtInt: 30, BufSize: buf, Notify: true, Label: fmt.Sprintf("c14-burst-%d-%d", ri, bi)})
+				if err != nil {
+					c.Inconclusive("rig: " + err.Error())
+					return
+				}
+				defer f.Shutdown()
+				var l *rig.Link
+				if role == rig.Acceptor {
+					if l, err = f.Connect("c14b"); err != nil {
+						c.Inconclusive("connect: " + err.Error())
+						return
+					}
+				} else {
+					l = f.Links[0]
+				}
+				if !l.Logon(role, 30, 5*time.Second) {
+					c.Inconclusive("full-stack logon did not complete")
+					return
+				}
+				fr0, _ := l.Frames()
+				before := len(fr0)
+				l.Conn.SetWriteDelay(2 * time.Millisecond)
+				const nReq = 40
+				var burst []byte
+				var ids []string
+				for k := 0; k < nReq; k++ {
+					id := fmt.Sprintf("REQ-%03d", k)
+					ids = append(ids, id)
+					burst = append(burst, l.Peer.Msg("1", fixref.F(rig.TTestReqID, id))...)
+				}
+				l.Conn.Feed(burst)
+				l.WaitFrames(10*time.Second, func(fs []rig.Frame) bool { return len(fs) >= before+nReq })
+				time.Sleep(20 * time.Millisecond)
+				fr, _ := l.Frames()
+				var got []string
+				for _, x := range fr[before:] {
+					if x.Type == "0" {
+						if v, ok := fixref.Get(x.Fields, rig.TTestReqID); ok {
+							got = append(got, string(v))
+						}
+					}
+				}
+				desc := fmt.Sprintf("%s buffer=%d: %d TestRequests in one burst, the peer takes 2 ms per message it reads", role, buf, nReq)
+				c.Eval(vk.Hash64([]byte(desc)), true)
+				c.Count("full_stack_burst_testrequests", nReq)
+				replay := map[string]interface{}{"scenario": desc, "seed": c.Seed, "answers_in_wire_order": strings.Join(got, ",")}
+				if len(got) != nReq {
+					c.Violate("C14/full-stack/burst-not-every-request-answered-once", fmt.Sprintf("%s: %d answers", desc, len(got)), replay)
+					return
+				}
+				for k := range got {
+					if got[k] != ids[k] {
+						c.Violate("C14/full-stack/burst-answers-out-of-order", fmt.Sprintf("%s: answer #%d echoes %s but request #%d was %s", desc, k, got[k], k, ids[k]), replay)
+						return
+					}
+				}
+			}(ri, role, bi, buf)
 		}
 	}
 	wg.Wait()
